@@ -6,7 +6,8 @@ the module attribute ``logfile.os`` with a proxy whose ``rename``/``remove`` rai
 the interrupted object is abandoned and a new ``LogFile`` is made on the same directory (= restart).
 
 case = {"rl": int|None, "max": int|None, "rot0": [[idx, hex], ...] (descending idx), "cur0": hex|None,
-        "ops": [["w", hex] | ["t", text] | ["rot"] | ["reopen"] | ["crot", k] | ["cw", k, "w"|"t", data]]}
+        "ops": [["w", hex] | ["t", text] | ["rot"] | ["reopen"] | ["extmove"] | ["crot", k] | ["cw", k, "w"|"t", data]]}
+``extmove`` = an outside tool renames the current file out of the directory, then ``reopen()`` (its documented use).
 """
 from __future__ import annotations
 
@@ -83,6 +84,7 @@ def impl(case) -> str:
     proxy = _OsProxy(real_os)
     out = []
     lf = None
+    moved = 0
     try:
         for i, h in case["rot0"]:
             with open(os.path.join(d, f"{NAME}.{i}"), "wb") as f:
@@ -105,6 +107,12 @@ def impl(case) -> str:
             elif op[0] == "rot":
                 lf.rotate()
             elif op[0] == "reopen":
+                lf.reopen()
+            elif op[0] == "extmove":
+                # an external rotation tool takes the current file away; reopen() is the documented response
+                moved += 1
+                os.makedirs(d + "_moved", exist_ok=True)
+                os.rename(os.path.join(d, NAME), os.path.join(d + "_moved", str(moved)))
                 lf.reopen()
             elif op[0] in ("crot", "cw"):
                 proxy.budget = op[1]
@@ -136,6 +144,7 @@ def impl(case) -> str:
         except Exception:
             pass
         shutil.rmtree(d, ignore_errors=True)
+        shutil.rmtree(d + "_moved", ignore_errors=True)
     # compared with the model: lengths after every operation + full final contents;
     # for the oracle (after " || "): full contents after every operation
     final = out[-1][1] if out else initial
@@ -194,6 +203,12 @@ def oracle(case, obs):
         # did the bytes of this write reach the file?  (a write killed inside rotate() wrote nothing)
         if op[0] in ("w", "t") or (op[0] == "cw" and not crashed):
             written += _data(op)
+        if op[0] == "extmove":
+            # what the outside tool took is outside the statement: the numbered files are the new baseline
+            written = b"".join(c for _, c in prev_rot)
+            if cur != b"" or rot != prev_rot:
+                return Failure(case, where + "after the current file was moved away and reopen(), the directory is not "
+                               "the numbered files plus a fresh empty current file", "reopen-after-move")
         on_disk = b"".join(c for _, c in rot) + cur
         if not written.endswith(on_disk):
             return Failure(case, where + "rotated files (oldest first) + current file are not a suffix of what was "
@@ -266,8 +281,10 @@ def gen_case(rng, crash=True, big=False):
                         "".join(rng.choice("ab€é日\U0001f600") for _ in range(rng.randrange(0, 5)))])
         elif r < 0.78:
             ops.append(["rot"])
-        elif r < 0.86:
+        elif r < 0.83:
             ops.append(["reopen"])
+        elif r < 0.86:
+            ops.append(["extmove"])
         elif not crash:
             ops.append(["w", _rand_bytes(rng, 2)])
         elif r < 0.93:
@@ -290,6 +307,12 @@ def gen(rng, tier):
                 for first in (["crot", k], ["cw", k, "w", "7a7a"]):
                     cases.append({"rl": 2, "max": mx, "rot0": rot0, "cur0": "6363",
                                   "ops": [first, ["w", "6464"], ["t", "€"], ["w", "65"], ["rot"]]})
+    # fill the file to about rotateLength, an outside tool moves it away, reopen(), write again
+    for rl in (1, 2, 3, 5):
+        for fill in range(0, rl + 3):
+            for mx in (None, 1):
+                cases.append({"rl": rl, "max": mx, "rot0": [], "cur0": None,
+                              "ops": [["w", "61" * fill], ["extmove"], ["w", "62"], ["t", "\u20ac"], ["w", "6363"], ["w", "64"]]})
     for _ in range(700 if quick else 7000):
         cases.append(gen_case(rng))
     for _ in range(150 if quick else 1500):
@@ -331,6 +354,8 @@ def to_coq(case):
             return "Rotate"
         if o[0] == "reopen":
             return "Reopen"
+        if o[0] == "extmove":
+            return "ExtMove"
         if o[0] == "crot":
             return f"CrashRotate {nat(o[1])}"
         n, b = (len(bytes.fromhex(o[3])), bytes.fromhex(o[3])) if o[2] == "w" else (len(o[3]), o[3].encode("utf8"))
